@@ -269,7 +269,19 @@ def r7(ctx, r):
     r.expect(not others, be, others[0] if others else None, "path derived in buildEntry", "buildEntry derives another path from the checked one", okdesc="no further path derivation")
 
 
+def anchors(ctx, r):
+    tab = [(af(ctx, "buildEntry"), ["gz", "file"]), (af(ctx, "fromDirectory"), ["canonicalRoot", "root"]), (af(ctx, "isContained"), ["target", "base"]), (af(ctx, "lexicallyRejected"), ["p", "seg", "start", "slash"]),
+           (af(ctx, "readFile"), ["p"]), (af(ctx, "getStaticFilesystem"), ["key"]), (af(ctx, "getTemplateFilesystem"), ["key"])]
+    for f, names in tab:
+        common.require_names(f, names)
+        r.instance()
+        r.ok("%s: %s" % (last(f.name), ", ".join(names)))
+
+
 def run(ctx, ck):
+    r0 = ck.run_rule("C20-R0", "the local names the rules are anchored on exist (a rename makes the analysis refuse — exit 2 — instead of raising a false alarm)", "anchor table", lambda r: anchors(ctx, r))
+    if r0.broken:
+        return
     ck.run_rule("C20-R1", "closed set of file readers; leaf opened read-only with O_NOFOLLOW", "A3 who-may-call + constant flag word", lambda r: r1(ctx, r))
     ck.run_rule("C20-R2", "lexical gate first, with its four rejections", "A2 dominance + table", lambda r: r2(ctx, r))
     ck.run_rule("C20-R3", "sanitiser flow at every lookup site: resolved path → error test → containment of that variable → regular file → read", "A12 sanitiser flow over dominating facts", lambda r: r3(ctx, r))
